@@ -209,7 +209,7 @@ def c08(chk):
     count_cases(chk, summ, lambda r: (r["kind"], r["bound_ms"], r["took_ms"] // 100) if r["ev"] == "obs.shutdown_result" else None)
     sample_events(chk, summ, ("obs.shutdown_result", "obs.api_after"), n=3)
     # real threads: runtime teardown at every point
-    td = harness("teardown", trials=28 if quick(chk) else 420, seed=chk.seed)
+    td = harness("teardown", trials=33 if quick(chk) else 440, seed=chk.seed)
     chk.parts.setdefault("teardown", []).append({"trials": len(td["trials"])})
     for t in td["trials"]:
         chk.case(("teardown", t["mode"], t["seed"]))
@@ -217,12 +217,17 @@ def c08(chk):
             chk.violation("teardown:hang:%s" % t["mode"],
                           "tearing the runtime down hung (mode %s, seed %d)" % (t["mode"], t["seed"]), t)
         for lk in t.get("leaks", []):
-            chk.violation("teardown:leak:%s" % t["mode"], "%s (mode %s, seed %d)" % (lk, t["mode"], t["seed"]), t)
+            kind = "address-not-free" if lk.startswith("address not free") else "service-clone-alive" if "clone" in lk else \
+                "not-closed" if "not closed" in lk else "call-pending" if "pending" in lk else "other"
+            chk.violation("teardown:leak:%s:%s" % (t["mode"], kind), "%s (mode %s, seed %d)" % (lk, t["mode"], t["seed"]), t)
         for p in t["panics"]:
             chk.violation("teardown:panic:%s:%s" % (t["mode"], p.split("\n")[-1][:60]),
                           "panic during runtime teardown (mode %s, seed %d): %s" % (t["mode"], t["seed"], p[:200]), t)
     chk.sample(td["trials"][2])
     # the defect that was repaired in /repo, as a spec mutant: asserting instead of cleaning up
     spec_mutant(chk, "assert_empty_after_join", "AnemoShut.tla", "MC_Shut.cfg",
-                [("AnemoShut.tla", "  /\\ lostSent' = lostSent \\cup act /\\ act' = {} /\\ mgr' = \"draining\"\n  /\\ UNCHANGED <<hs, rt, panicked, replied>>",
-                  "  /\\ panicked' = (act # {}) /\\ mgr' = \"draining\"\n  /\\ UNCHANGED <<hs, rt, replied, act, lostSent>>")], workers=2)
+                [("AnemoShut.tla", "  /\\ lostSent' = lostSent \\cup act /\\ act' = {} /\\ mgr' = \"draining\"\n  /\\ UNCHANGED <<hs, rt, panicked, replied, svc, mbox>>",
+                  "  /\\ panicked' = (act # {}) /\\ mgr' = \"draining\"\n  /\\ UNCHANGED <<hs, rt, replied, act, lostSent, svc, mbox>>")], workers=2)
+    # answering shutdown() as soon as the mailbox is seen closed (before the manager's state is gone)
+    spec_mutant(chk, "reply_on_mailbox_closed", "AnemoShut.tla", "MC_Shut.cfg",
+                [("AnemoShut.tla", "Reply == Up /\\ mgr = \"dropped\"", "Reply == Up /\\ mgr \\in {\"dropping\", \"dropped\"}")], workers=2)
